@@ -32,28 +32,20 @@ let rec tree_s (t : n list tree) =
   | Leaf s -> "\"" ^ raw s ^ "\""
   | Node (o, a, b) -> "[\"" ^ op_s o ^ "\"," ^ tree_s a ^ "," ^ tree_s b ^ "]"
 
-let site_s = function SLit -> "lit" | SPow -> "pow" | SStruct -> "struct"
+
+let diag_s = function DRange -> "number out of range" | DNegExp -> "negative exponent"
 
 let result_s (r : calc_result) =
   match r with
-  | RSyntax -> "err"
+  | RSyntax -> "err \"syntax error\""
   | RFuel -> "fuel"
-  | RInt (Ok z) -> "ok \"" ^ Int64.to_string (i64_of_z z) ^ "\""
-  | RInt (Panic s) -> "PANIC " ^ site_s s
+  | RInt (Ok (IVal z)) -> "ok \"" ^ Int64.to_string (i64_of_z z) ^ "\""
+  | RInt (Ok (IDiag d)) -> "err \"" ^ diag_s d ^ "\""
+  | RInt Panic -> "PANIC struct"
   | RInt OutOfFuel -> "fuel"
   | RFloat (Ok t) -> "float " ^ tree_s t
-  | RFloat (Panic s) -> "PANIC " ^ site_s s
+  | RFloat Panic -> "PANIC struct"
   | RFloat OutOfFuel -> "fuel"
-
-let checks_of f = (f = "1")
-
-let kclass_s = function KLit -> "lit_out_of_range" | KPowNeg -> "pow_neg_exponent"
-  | KPowTrunc -> "pow_exponent_truncated" | KPowOvf -> "pow_overflow"
-let uniq l = List.sort_uniq compare l
-let with_classes c s r =
-  match line_classes c s with
-  | [] -> r
-  | ks -> r ^ " #k=" ^ String.concat "," (uniq (List.map kclass_s ks))
 
 let () =
   iter_lines (fun l ->
@@ -68,11 +60,15 @@ let () =
          | POk ps -> print_endline ("ok " ^ pairs_s ps)
          | PFail -> print_endline "err"
          | PFuel -> print_endline "fuel")
-    | ["calc"; c; f] ->
-        let s = str_of_field f in
-        print_endline (with_classes (checks_of c) s (result_s (run_calculator (checks_of c) s)))
-    | ["try"; c; f] ->
-        (match try_run_calculator (checks_of c) (str_of_field f) with
+    | ["pegpairs"; f] ->
+        (match peg_pairs (str_of_field f) with
+         | GOk ps -> print_endline ("ok " ^ pairs_s ps)
+         | GFail -> print_endline "err"
+         | GFuel -> print_endline "fuel"
+         | GBad -> print_endline "?bad-tree")
+    | ["calc"; f] -> print_endline (result_s (run_calculator (str_of_field f)))
+    | ["try"; f] ->
+        (match try_run_calculator (str_of_field f) with
          | None -> print_endline "none"
-         | Some r -> print_endline (with_classes (checks_of c) (str_of_field f) (result_s r)))
+         | Some r -> print_endline (result_s r))
     | _ -> print_endline "?bad-case") Sys.argv.(1)
